@@ -887,6 +887,125 @@ func lifecycleRounds(t *testing.T, w *bufio.Writer) {
 	}
 }
 
+// bigRound: ONE RIB operation that rewrites many FIB entries (a child-inherit route over n routed children is re-registered
+// with cost 1, 2, 3, ...; finally its face is torn down), while readers take whole-table dumps and walk over the children
+// with lookups.  Atomicity per RIB operation (guarded_linearizable) means for this single-writer workload: every dump shows
+// ONE version on all entries, and every value read lies between the last version completed before the read began and the
+// last version started before it ended -- in particular a reader never goes back to an older version.
+func bigRound(t *testing.T, w *bufio.Writer, round int, impl string, m int, n int, d time.Duration) {
+	core.GetConfig().Tables.Fib.Hashtable.M = uint16(m)
+	if impl == "H" {
+		table.CreateFIBTable("hashtable")
+	} else {
+		table.CreateFIBTable("nametree")
+	}
+	resetRib()
+	parent := iname{9}
+	kids := make([]enc.Name, n)
+	for i := range kids {
+		kids[i] = iname{9, 1000 + i}.enc()
+		table.Rib.AddEncRoute(kids[i], &table.Route{FaceID: 2, Origin: 0, Cost: 1 << 40, Flags: 0})
+	}
+	var started, completed atomic.Int64 // version = cost of face 1 on every entry below /9 (0 = not there)
+	version := func(nhs []*table.FibNextHopEntry) int64 {
+		for _, nh := range nhs {
+			if nh.Nexthop == 1 {
+				return int64(nh.Cost)
+			}
+		}
+		return 0
+	}
+	var mu sync.Mutex
+	var problems []string
+	report := func(s string) {
+		mu.Lock()
+		if len(problems) < 3 {
+			problems = append(problems, s)
+		}
+		mu.Unlock()
+	}
+	stop := make(chan struct{})
+	var wg sync.WaitGroup
+	reader := func(f func()) {
+		wg.Add(1)
+		go func() {
+			defer wg.Done()
+			for {
+				select {
+				case <-stop:
+					return
+				default:
+					f()
+				}
+			}
+		}()
+	}
+	for i := 0; i < 2; i++ {
+		reader(func() { // whole-table dump
+			lo := completed.Load()
+			hist := map[int64]int{}
+			for _, e := range table.FibStrategyTable.GetAllFIBEntries() {
+				if len(e.Name()) >= 1 && e.Name()[0].Equal(kids[0][0]) {
+					hist[version(e.GetNextHops())]++
+				}
+			}
+			hi := started.Load()
+			if len(hist) > 1 {
+				report(fmt.Sprintf("one GetAllFIBEntries dump shows %d different versions of one RIB operation's result (version:entries %v)", len(hist), hist))
+			}
+			for v := range hist {
+				if v != 0 && (v < lo || v > hi) {
+					report(fmt.Sprintf("dump shows version %d outside [%d,%d]", v, lo, hi))
+				}
+			}
+		})
+	}
+	for i := 0; i < 2; i++ {
+		reader(func() { // a walk over the children: versions must never go back
+			last := int64(0)
+			for k := 0; k < n; k += 1 + n/64 {
+				lo := completed.Load()
+				v := version(table.FibStrategyTable.FindNextHopsEnc(kids[k]))
+				hi := started.Load()
+				if v != 0 && (v < lo || v > hi) {
+					report(fmt.Sprintf("lookup under child %d returned version %d outside [%d,%d]", k, v, lo, hi))
+				}
+				if v != 0 && v < last {
+					report(fmt.Sprintf("a reader that had seen version %d later saw version %d (child %d): a partially installed RIB operation", last, v, k))
+				}
+				if v > last {
+					last = v
+				}
+			}
+		})
+	}
+	stuck := ""
+	deadline := time.Now().Add(d)
+	for v := int64(1); time.Now().Before(deadline) && stuck == ""; v++ {
+		started.Store(v)
+		if !bounded(stuckAfter, func() {
+			table.Rib.AddEncRoute(parent.enc(), &table.Route{FaceID: 1, Origin: 0, Cost: uint64(v), Flags: 1})
+		}) {
+			stuck = fmt.Sprintf("reg /9 1 0 %d 1", v)
+		}
+		completed.Store(v)
+	}
+	close(stop)
+	wg.Wait()
+	fmt.Fprintf(w, "R b%d %s %d 5\n", round, impl, m)
+	if stuck != "" {
+		fmt.Fprintf(w, "X watchdog: [%s] over %d child prefixes never returned (deadlock)\n", stuck, n)
+	}
+	for _, p := range problems {
+		fmt.Fprintf(w, "X one RIB operation over %d prefixes (versions up to %d) was not atomic for a concurrent reader: %s\n", n, started.Load(), p)
+	}
+	fmt.Fprintf(w, "E\n")
+	if stuck != "" {
+		w.Flush()
+		t.Fatalf("big round stuck")
+	}
+}
+
 // listingRound: management listings (GetAllFIBEntries, GetAllForwardingStrategies, Rib.GetAllEntries) run beside
 // forwarding lookups and updates on prefixes whose next hops are NOT in ascending cost order (unrecorded: race / abort /
 // torn-value detection; every value read must be one that was written).
@@ -1161,6 +1280,15 @@ func TestConc(t *testing.T) {
 			core.GetConfig().Fw.Threads = 1
 		} else {
 			core.GetConfig().Fw.Threads = 8
+		}
+		if round%32 == 13 || round%32 == 29 {
+			big := 140
+			dur := 150 * time.Millisecond
+			if round%32 == 29 {
+				big, dur = 1100, 350*time.Millisecond
+			}
+			bigRound(t, w, round, []string{"T", "H"}[(round/32)%2], ms[(round/32)%len(ms)], big, dur)
+			continue
 		}
 		if round%16 == 7 {
 			unsetRaceRound(t, w, round, []string{"H", "T"}[(round/16)%2], ms[(round/16)%len(ms)])
